@@ -31,6 +31,8 @@ def run(ctx):
         cases.append({"kind": "ephemeral", "seed": ctx.seed * 100 + i, "fails": []})
     for i in range(12 if ctx.quick else 60):     # 6 yield points x same / other channel (x timing of the release)
         cases.append({"kind": "ephsub", "seed": ctx.seed * 120 + i, "fails": []})
+    for i in range(2 if ctx.quick else 12):
+        cases.append({"kind": "emptybusy", "seed": ctx.seed * 100 + i, "fails": []})
     cf = os.path.join(ctx.scratch, "c08-cases.json")
     json.dump(cases, open(cf, "w"))
     of = os.path.join(ctx.scratch, "c08-obs.json")
